@@ -5,6 +5,9 @@
      belt.hash  <chunk> <chunk> ...       -> beltHashStart; per chunk: beltHashStepH, beltHashStepG;
                                              the StepG values separated by single spaces
      belt.hmac  <key> <chunk> <chunk> ... -> beltHMACStart(key); per chunk: beltHMACStepA, beltHMACStepG
+     belt.addbits <block16> <count>       -> beltBlockAddBitSizeU32(block, count), count decimal < 2^64:
+                                             16 octets (the 128-bit bit counter; reaches the high words,
+                                             which no feasible hash input does)
    handle_belt returns 1 if the op name is one of these (one line printed, "bad-op" for
    malformed arguments), 0 otherwise (nothing printed).
    Every input is an exact-size heap blob (hex_arg), states are exact-size mallocs of
@@ -13,6 +16,8 @@
 #define BEE2V_C03_BELT_H
 #include <bee2/core/u32.h>
 #include <bee2/crypto/belt.h>
+#include <errno.h>
+#include "crypto/belt/belt_lcl.h"
 
 static int belt_hex_ok_(const char* s)
 {
@@ -29,8 +34,35 @@ static int handle_belt(int argc, char** argv)
 	int i;
 	if (argc < 1) return 0;
 	if (strcmp(argv[0], "belt.encr") && strcmp(argv[0], "belt.compr") &&
-		strcmp(argv[0], "belt.hash") && strcmp(argv[0], "belt.hmac"))
+		strcmp(argv[0], "belt.hash") && strcmp(argv[0], "belt.hmac") &&
+		strcmp(argv[0], "belt.addbits"))
 		return 0;
+	if (strcmp(argv[0], "belt.addbits") == 0)
+	{
+		size_t lb;
+		unsigned char* b;
+		const char* p;
+		unsigned long long cnt;
+		u32 block[4];
+		unsigned char out[16];
+		if (argc != 3 || !belt_hex_ok_(argv[1]) || !argv[2][0]) { printf("bad-op"); return 1; }
+		for (p = argv[2]; *p; ++p)
+			if (*p < '0' || *p > '9') { printf("bad-op"); return 1; }
+		errno = 0;
+		cnt = strtoull(argv[2], 0, 10);
+		if (errno) { printf("bad-op"); return 1; }
+		b = hex_arg(argv[1], &lb);
+		if (lb != 16) printf("bad-op");
+		else
+		{
+			u32From(block, b, 16);
+			beltBlockAddBitSizeU32(block, (size_t)cnt);
+			u32To(out, 16, block);
+			put_hex(out, 16);
+		}
+		hex_free(b, lb);
+		return 1;
+	}
 	for (i = 1; i < argc; ++i)
 		if (!belt_hex_ok_(argv[i])) { printf("bad-op"); return 1; }
 	if (strcmp(argv[0], "belt.encr") == 0)
